@@ -15,7 +15,9 @@ class Skip(Exception):
 
 
 def _is_int(v):
-    return v == mpmath.floor(v)
+    # an exponent such as 18 * 3**-2 is the integer 2 up to the rounding of the 80-digit arithmetic
+    r = mpmath.nint(v)
+    return abs(v - r) <= mpmath.mpf("1e-60") * max(1, abs(v))
 
 
 def mp_op(node, a, b):
@@ -51,7 +53,7 @@ def mp_op(node, a, b):
                 return UNDEF
             if abs(b) > 10 ** 6:
                 raise Skip()
-            return mpmath.power(a, int(b))
+            return mpmath.power(a, int(mpmath.nint(b)))
         e = b * mpmath.log(a)
         if abs(e) > 10 ** 6:
             raise Skip()
